@@ -5,6 +5,7 @@ import RR.Proof.ResamplerSpec
 import RR.Proof.V2S
 import RR.Proof.FftStream
 import RR.Proof.SinkSrc
+import RR.Proof.DelayCtl
 
 /-!
 # C10 — exactly-specified blocks compute their documented function
@@ -202,5 +203,17 @@ theorem c10_null_sink (w : List Nat) (ts : List Tag) :
   exact ⟨h1, h2⟩
 
 example : sinkDrive 3 [[9, 8], [7, 6]] 0 = (3, [9, 8, 7]) := by decide
+
+/-- `Delay::set_delay` (block `delayctl`: `delaySet` is compared with the real call after every control call,
+including its panic). Called in a steady state — start-up zeros out, no drop pending — it never panics, sets the
+configured delay, and changes the pending net shift (zeros owed − samples to drop) by exactly `new − old`.
+Outside the steady state it panics exactly when `new ≤ old` and `old − new < min(current_delay, new)`
+(`Delay::new(s,5); set_delay(4)`), and a raise while zeros are still owed forgets them (`delaySet_net_raise`);
+both are recorded as observations in DESIGN.md, since no property quantifies over control calls. -/
+theorem c10_set_delay (d : Nat) (st : DelaySt) (nd : Nat) :
+    (st.currentDelay = 0 → st.skip = 0 →
+      ∃ st', delaySet d st nd = some (nd, st') ∧ st'.net = st.net + ((nd : Int) - (d : Int))) ∧
+    (delaySet d st nd = none ↔ nd ≤ d ∧ d - nd < min st.currentDelay nd) :=
+  ⟨delaySet_steady d st nd, delaySet_none_iff d st nd⟩
 
 end RR.Props.C10
